@@ -578,9 +578,15 @@ class ViewParameter(AbstractParameter, ParameterListener):
 
     @tensor.setter
     def tensor(self, tensor: Tensor) -> None:
+        parent_tensor = self.parameter.tensor
         with torch.no_grad():
-            self.parameter.tensor[..., self.indices] = tensor
-        self.parameter.fire_parameter_changed()
+            parent_tensor[..., self.indices] = tensor
+        if isinstance(self.parameter, Parameter):
+            self.parameter.fire_parameter_changed()
+        else:
+            # a derived parameter (view, concatenation, transformed) does not own
+            # its tensor: hand the modified tensor back through its own setter
+            self.parameter.tensor = parent_tensor
 
     @property
     def shape(self) -> torch.Size:
